@@ -243,6 +243,15 @@ def run(R):
             run_history(R, level, [("op", "get"), ("reboot", 0), ("op", "set"), ("op", "get")], b"", 1)
             run_history(R, level, [("op", "get"), ("advance", 149), ("op", "get"), ("advance", 149), ("op", "get"), ("advance", 3 * 86400), ("op", "walk")], b"", 1)
             run_history(R, level, [("op", "set"), ("advance", 3600), ("reboot", 0), ("advance", 100), ("reboot", 0), ("op", "bulkget")], b"", 1)
+        # a long-lived client polling faster than once a second: fractions of a second
+        # must not get lost (500 requests 0.4 s apart = 200 s, no reboot, so the agent
+        # must never see a request outside its window)
+        for level in (levels[1], levels[-1]):
+            steps = []
+            for _ in range(500):
+                steps += [("op", "get"), ("advance", 0.4)]
+            run_history(R, level, steps, b"", 1)
+            R.mon["subsecond_polling_histories"] += 1
 
 
 def replay(R, v):
